@@ -70,7 +70,7 @@ NextSlot  == CHOOSE i \in FreeSlots : \A j \in FreeSlots : i <= j
 (* a mock that is still attached may hold the hub during a broadcast *)
 Gates == {0} \cup (IF Has("gate") /\ held = 0 THEN {i \in Slots : On(i) /\ IsMock(i)} ELSE {})
 Undeleted == {e \in ToSetOf(StoredLog) : Deleted(e.mb, e.id) \notin ToSetOf(log)}
-UnknownId == 99
+UnknownId == 9999
 (* while the hub is held only so many operations are queued behind it *)
 Room == held = 0 \/ nheld < MaxHeld
 
